@@ -121,7 +121,7 @@ mk_ivc(False)
 
 
 # ------------------------------------------------------------------ XsdAnyAttribute.raw_decode : the wildcard's verdict on one attribute
-t = Target('wildcards.XsdAnyAttribute.raw_decode', ['C03', 'C16', 'C04'], 'xmlschema/validators/wildcards.py', 'XsdAnyAttribute.raw_decode',
+t = Target('wildcards.XsdAnyAttribute.raw_decode', ['C03', 'C16', 'C04', 'C19'], 'xmlschema/validators/wildcards.py', 'XsdAnyAttribute.raw_decode',
            note="an attribute that the namespace constraint does not admit is an error in every processContents mode (also 'skip'); 'skip' without process_skipped "
                 "returns Empty without any lookup; 'strict' (validation other than skip) adds an error when the namespace cannot be loaded or the attribute has no "
                 "global declaration; with a declaration the value is decoded by it; 'lax' without a declaration passes the value through",
